@@ -287,13 +287,27 @@ def apply_letter(W, L):
         elif how == 'slice-iadd':
             rv.value[..., 0:1] += val
             mv['vals'][..., 0:1] += val
+        elif how == 'fancy':                       # integer-array (fancy) indexing through the property
+            ii = np.array([0, mv['vals'].shape[0] - 1])
+            rv.value[ii] = val
+            mv['vals'][ii] = val
+        elif how == 'mask':                        # boolean-mask assignment
+            msk = mv['vals'] > np.median(mv['vals'])
+            rv.value[msk] = val
+            mv['vals'][msk] = val
+        elif how == 'list':                        # a nested python list instead of an array
+            new_ = (mv['vals'] * 0.5 + val)
+            rv.value = new_.tolist()
+            mv['vals'][...] = new_
+        # (assignment through .flat / np.put / fill is documented as NOT tracked by the dirty flags: not a supported edit)
     elif name == 'update_value':
         _, i, j = L
         W.real[i].update_value(W.real[j])
         W.mod[i]['vals'] = W.mod[j]['vals'].copy()
     elif name == 'copy':
         _, i, slot = L
-        new = W.real[i].copy()
+        # the documented copy(), or python's copy.deepcopy of the whole variable (same contract: an equal, independent variable)
+        new = W.real[i].copy() if (slot + i) % 3 else copy.deepcopy(W.real[i])
         W.nrec += 1
         W.recs[W.nrec] = copy.deepcopy(W.recs[W.mod[i]['rec']])
         W.add_var(W.mod[i]['vals'], W.nrec, new, slot)
@@ -308,6 +322,8 @@ def apply_letter(W, L):
                 new, vals = a * 1.5, va * 1.5
             elif kind == 'rsub':
                 new, vals = 2.0 - a, 2.0 - va
+            elif kind == 'rmulscalar':
+                new, vals = 2.5 * a, 2.5 * va
             elif kind == 'funceval':
                 new, vals = pf.funceval(np.tanh, a), np.tanh(va)
             elif kind == 'neg':
@@ -325,6 +341,16 @@ def apply_letter(W, L):
         W.nrec += 1
         W.recs[W.nrec] = copy.deepcopy(W.recs[W.mod[i]['rec']])
         W.add_var(vals, W.nrec, new, slot)
+        # "ghost values are never stale": a variable produced by arithmetic reports boundary values consistent with its own
+        # (copied) boundary conditions straight away - exactly those of a fresh variable with the same interior values
+        k_new = slot if (slot is not None and slot < len(W.real)) else len(W.real) - 1
+        if isinstance(new, pf.CellVariable) and new is not a and np.all(np.isfinite(np.asarray(new._value))):
+            fr_ = W.fresh(k_new, 'bc-passed')
+            msk_ = W.noncorner()
+            d_ = np.abs(np.asarray(new._value, dtype=float) - np.asarray(fr_._value, dtype=float))[msk_]
+            sc_ = float(np.max(np.abs(np.asarray(fr_._value, dtype=float)[msk_]))) + 1e-300
+            if d_.size and float(np.max(d_)) / sc_ > 1e-12:
+                raise Fail('stale/arith-ghosts', 'the variable produced by arithmetic (%s) reports boundary values that differ from those of a fresh variable with the same interior values and boundary conditions (rel %.3g)' % (kind, float(np.max(d_)) / sc_))
     elif name == 'share':
         _, i, slot, vals = L
         if W.mirror:
@@ -416,7 +442,7 @@ def random_letter(rng, W, allow_share=True):
         ss = {'lo': [SIDES[k][0]], 'hi': [SIDES[k][1]], 'both': list(SIDES[k])}[which]
         return ('periodic', i, ss, bool(rng.random() < 0.6))
     if r < 0.60:
-        how = str(rng.choice(['scalar', 'array', 'elem', 'slice', 'iadd', 'imul', 'slice-iadd']))
+        how = str(rng.choice(['scalar', 'array', 'elem', 'slice', 'iadd', 'imul', 'slice-iadd', 'fancy', 'mask', 'list']))
         val = float(np.round(rng.normal(0, 1), 3))
         if how == 'array':
             val = np.round(rng.normal(0, 1, g.dims), 3)
@@ -431,7 +457,7 @@ def random_letter(rng, W, allow_share=True):
     if r < 0.71:
         return ('copy', i, slot)
     if r < 0.78:
-        return ('arith', str(rng.choice(['add', 'mulscalar', 'rsub', 'funceval', 'neg', 'radd0', 'sum1', 'rmul1', 'add0', 'div1'])), i, int(rng.integers(0, nv)), slot)
+        return ('arith', str(rng.choice(['add', 'mulscalar', 'rsub', 'rmulscalar', 'funceval', 'neg', 'radd0', 'sum1', 'rmul1', 'add0', 'div1'])), i, int(rng.integers(0, nv)), slot)
     if r < 0.83 and allow_share:
         if slot == i:
             slot = (i + 1) % 3
@@ -450,7 +476,7 @@ def reduced_alphabet(g, cls):
     k0 = g.nd - 1
     A = [('bc', 0, 'left', 'c', 'assign', 0.7), ('bc', 0, 'right', 'a', 'elem', 0.4), ('util', 0, 'right', 'fixedValue', (1.5,)),
          ('util', 0, 'left', 'newtonCooling', (1.0, 2.0, 0.5, True)), ('value', 0, 'scalar', 0.3), ('value', 0, 'slice', 2.0), ('value', 0, 'iadd', 1.0),
-         ('copy', 0, 1), ('share', 0, 1, np.full(g.dims, 0.25)), ('arith', 'mulscalar', 0, 0, 1), ('arith', 'radd0', 0, 0, 1), ('apply', 0), ('solve', 0), ('explicit', 0),
+         ('copy', 0, 1), ('share', 0, 1, np.full(g.dims, 0.25)), ('arith', 'mulscalar', 0, 0, 1), ('arith', 'radd0', 0, 0, 1), ('arith', 'rmulscalar', 0, 0, 1), ('apply', 0), ('solve', 0), ('explicit', 0),
          ('update_value', 0, 1), ('bc', 1, 'left', 'c', 'assign', -0.6), ('solve', 1), ('explicit-keep', 0, 1)]
     if AXKIND[cls][k0] in ('len', 'ang'):
         A.append(('periodic', 0, [SIDES[k0][0]], True))
